@@ -90,7 +90,7 @@ template <class Pixel, bool Planar> struct PixelKindBase
     static constexpr bool planar = Planar;
     static constexpr bool is_tracked = false;
     static constexpr int nchan = gil::num_channels<Pixel>::value;
-    static constexpr bool nth_ok = is_plain_pixel<Pixel>::value && (nchan > 1);
+    static constexpr bool nth_ok = is_plain_pixel<Pixel>::value; // incl. single-channel pixels (nth_channel_view(gray, 0))
     static constexpr int chan_align = (int)alignof(Pixel);
     static constexpr bool bit_aligned = false;
     template <class A> using image_t = gil::image<Pixel, Planar, A>;
